@@ -192,25 +192,54 @@ def build(kind, snap):
         w.close()
         bio.seek(0)
         return H.Backend(kind, cls(bio))
+    if kind in ("sub-tar-r", "ro-tar-r", "cachedir-tar-r"):
+        # wrappers over the one backend that declares case_insensitive on Linux (read-mode TarFS):
+        # a wrapper has no meta of its own, it forwards getmeta()
+        from fs.wrap import read_only, cache_directory
+
+        inner = build("tar-r", [("D", "top")] + [(e[0], "top/" + e[1]) + tuple(e[2:]) for e in snap] if kind == "sub-tar-r" else snap)
+        w = {"sub-tar-r": lambda f: f.opendir("top"), "ro-tar-r": read_only, "cachedir-tar-r": cache_directory}[kind](inner.fs)
+        return H.Backend(kind, w, inner=[inner.fs])
     b = H.make_backend(kind)
     populate(b.fs, snap)
     return b
 
 
+CI_KINDS = ["tar-r", "sub-tar-r", "ro-tar-r", "cachedir-tar-r"]
+CI_TREE = [("D", "Dir"), ("F", "Dir/File.TXT"), ("F", "Dir/other.py"), ("D", "Dir/Sub"), ("F", "Dir/Sub/deep.Txt"),
+           ("F", "ReadMe.md"), ("D", "lower"), ("F", "lower/x.txt")]
+CI_OPTS = [{"filter": ["*.txt"]}, {"exclude": ["README*"]}, {"filter_dirs": ["dir", "sub"]}, {"exclude_dirs": ["DIR"]},
+           {"filter_glob": ["**/*.TXT"]}, {"exclude_glob": ["dir/sub/*"]}, {"filter": ["*.TXT"], "exclude_dirs": ["SUB"]},
+           {"filter_glob": ["DIR/*.py"], "max_depth": 2}]
+
+
+def case_insensitive_specs():
+    """the letter case of a pattern differs from the stored names, on a filesystem that declares
+    case_insensitive and on every kind of wrapper around it; the same on MemoryFS (case sensitive)"""
+    runs = [("/", search, o) for search in ("breadth", "depth") for o in CI_OPTS]
+    return [(k, CI_TREE, runs) for k in CI_KINDS + ["mem", "sub-mem"]]
+
+
 # ----------------------------------------------------------------------------- options
 
 
+_CI = [False]  # the filesystem of the case being judged declares case_insensitive (getmeta)
+
+
 def wm(patterns, name):
-    """documented wildcard-list semantics: an empty list matches everything (wildcard.match_any)"""
+    """documented wildcard-list semantics: an empty list matches everything (wildcard.match_any);
+    "the pattern matching is case-insensitive if the filesystem is" (FS.match)"""
     from fs import wildcard
 
-    return (not patterns) or any(wildcard.match(p, name) for p in patterns)
+    m = wildcard.imatch if _CI[0] else wildcard.match
+    return (not patterns) or any(m(p, name) for p in patterns)
 
 
 def gm(patterns, path):
     from fs import glob
 
-    return (not patterns) or any(glob.match(p, path) for p in patterns)
+    m = glob.imatch if _CI[0] else glob.match
+    return (not patterns) or any(m(p, path) for p in patterns)
 
 
 def split_legacy(pattern):
@@ -570,7 +599,7 @@ def inside(p, d):
 
 
 class Case:
-    __slots__ = ("kind", "snap", "start", "nstart", "search", "opts", "real", "model", "ch", "origin")
+    __slots__ = ("kind", "snap", "start", "nstart", "search", "opts", "real", "model", "ch", "origin", "ci")
 
     def to_json(self):
         return {"backend": self.kind, "tree": [[e[0], e[1]] for e in self.snap], "start": self.start,
@@ -579,6 +608,14 @@ class Case:
 
 
 def judge(rep, c):
+    _CI[0] = bool(getattr(c, "ci", False))
+    try:
+        return _judge(rep, c)
+    finally:
+        _CI[0] = False
+
+
+def _judge(rep, c):
     """property oracle on the real result, then model ↔ code correspondence"""
     real, ordered = c.real, c.kind in ORDERED
     rep.evaluations += 1
@@ -743,10 +780,12 @@ def run_cases(rep, drv, specs):
             ch = children_of(real_snap)
             enc = H.enc_tree(real_snap)
             tcache = {}
+            ci = bool(b.fs.getmeta().get("case_insensitive", False))
             for start, search, opts in runs:
                 c = Case()
                 c.kind, c.snap, c.start, c.search, c.opts, c.ch, c.origin = kind, real_snap, start, search, opts, ch, [[e[0], e[1]] for e in snap]
                 c.nstart = norm_start(start)
+                c.ci = ci
                 c.real = run_real(b.fs, start, search, opts, bound=(len(cases) % 3 == 0))
                 key = json.dumps(opts, sort_keys=True)
                 if key not in tcache:
@@ -840,6 +879,7 @@ def directed(rep, drv):
         specs.append(("mem", t4, runs))
         specs.append(("os", t4, runs[::3]))
     run_cases(rep, drv, specs)
+    run_cases(rep, drv, case_insensitive_specs())
 
 
 def prefix_complete_sweep(rep, rng, n_patterns, n_paths):
@@ -882,7 +922,9 @@ def run(rep, tier, seed, deep=False):
         "an empty pattern list matches everything (documented for wildcard.match_any / glob.match_any): exclude=[] removes every file",
         "max_depth <= 1 behaves like max_depth = 1 (only the start directory is scanned)",
         "directory listing order is the filesystem's; exact order is compared only where it is defined (MemoryFS insertion order)",
-        "filesystems are case sensitive (getmeta case_insensitive False) in this environment",
+        "the filesystems are case sensitive in this environment except read-mode TarFS, which declares case_insensitive: "
+        "it and three kinds of wrapper around it (SubFS, WrapReadOnly, WrapCachedDir) run a directed mixed-case grid; the "
+        "oracle follows the declared flag (FS.match: 'case-insensitive if the filesystem is')",
         "scan errors other than at the start path (ignore_errors / on_error) are outside the model",
     ]
     try:
